@@ -11,7 +11,7 @@ from ..alg import Sym, is_zero, Unsupported, PathRaised
 from ..order import Interp
 
 ATM = "typhon/physics/atmosphere.py"
-EXPECT = {"C09.moebius": 24, "C09.rh": 3, "C09.guard": 4, "C09.mixed": 6, "C09.lapse": 2, "C09.consts": 4}
+EXPECT = {"C09.moebius": 24, "C09.rh": 3, "C09.guard": 4, "C09.mixed": 6, "C09.lapse": 2, "C09.consts": 4, "C09.pure": 12}
 
 PAIRS = [("vmr2mixing_ratio", "mixing_ratio2vmr"), ("vmr2specific_humidity", "specific_humidity2vmr"),
          ("mixing_ratio2specific_humidity", "specific_humidity2mixing_ratio")]
@@ -137,8 +137,13 @@ def rule_guard(ctx):
             vals = {}
             for tv in (-1, 0, 1):
                 vals[tv] = bool(Interp({T: tv}).ev(guard.test))
-            ok = is_value and vals == {-1: True, 0: True, 1: False}
-            fact = "if %s: raise %s  -> truth for T=-1,0,1: %s" % (norm(guard.test), norm(rs.exc) if rs.exc else None, vals)
+            red = guard.test.func if isinstance(guard.test, ast.Call) else None
+            red_name = (dotted(red) or "").split(".")[-1] if red is not None else None
+            array_ok = red_name in ("any", None) or (red_name in ("min", "amin", "nanmin"))
+            ok = is_value and vals == {-1: True, 0: True, 1: False} and array_ok and red_name != "all"
+            if red_name == "all":
+                why_all = " [np.all: an array is only rejected when EVERY element is non-positive]"
+            fact = "if %s: raise %s  -> truth for T=-1,0,1: %s%s" % (norm(guard.test), norm(rs.exc) if rs.exc else None, vals, locals().get("why_all", ""))
         ctx.ob("%s.guard" % name, ok, fact, "raises ValueError exactly when some T <= 0 (0 K included)", node=guard or f.node, func=f)
         rets = [s for s in f.body if isinstance(s, ast.Return)]
         okr = len(rets) == 1 and isinstance(rets[0].value, ast.Call) and dotted(rets[0].value.func) in ("np.exp", "numpy.exp")
@@ -259,3 +264,6 @@ def rule_consts(ctx):
 def run(ctx):
     for r in (rule_moebius, rule_rh, rule_guard, rule_mixed, rule_lapse, rule_consts):
         ctx.attempt(r, ctx)
+    from ..purity import rule_pure
+    names = sorted(set(a for p in PAIRS for a in p)) + ["relative_humidity2vmr", "vmr2relative_humidity", "e_eq_ice_mk", "e_eq_water_mk", "e_eq_mixed_mk", "moist_lapse_rate"]
+    ctx.attempt(rule_pure, ctx, "C09.pure", [(ATM, n) for n in names])
